@@ -24,6 +24,8 @@ def jobs(tier, seed):
         j.clause = "06.a"
     return J
 
+fallback_candidates = c11.fallback_candidates
+
 def engine_b(tier, seed, scr):
     from props._b import engine
     from mir2smt import terms
